@@ -322,8 +322,16 @@ def _evaluate_batch(mod, cases: list[dict], stats: Stats, use_model: bool) -> No
         why = mod.oracle(c, r)
         if why:
             stats.n_oracle += 1
-            if len(stats.oracle_violations) < 60:
-                stats.oracle_violations.append({"case": c, "real": r, "why": why})
+            # keep a few failing cases PER failure signature, so that a frequent (e.g. known) failure cannot crowd
+            # a rarer, different one out of the list the verdict looks at
+            try:
+                k0 = mod.known_key(c, r, why) if hasattr(mod, "known_key") else ""
+            except Exception:
+                k0 = ""
+            per = stats.extra.setdefault("_per_key", {})
+            if per.get(k0, 0) < 6 and len(stats.oracle_violations) < 240:
+                per[k0] = per.get(k0, 0) + 1
+                stats.oracle_violations.append({"case": c, "real": r, "why": why, "key0": k0})
     if hasattr(mod, "after_batch"):
         mod.after_batch()
 
@@ -333,6 +341,8 @@ def shrink_case(mod, case: dict, why: str) -> tuple[dict, list[str], str]:
     real = safe_run_real(mod, case)
     if not hasattr(mod, "shrink"):
         return case, real, why
+    has_key = hasattr(mod, "known_key")
+    key0 = mod.known_key(case, real, why) if has_key else ""
     budget = 400
     deadline = time.time() + 20.0
     improved = True
@@ -347,7 +357,9 @@ def shrink_case(mod, case: dict, why: str) -> tuple[dict, list[str], str]:
                 w = mod.oracle(cand, r)
             except Exception:
                 continue
-            if w:
+            # a smaller case is accepted only if it fails in the SAME way (same signature): shrinking must never turn
+            # an unlisted failure into a listed (known) one, or the other way round
+            if w and (not has_key or mod.known_key(cand, r, w) == key0):
                 case, real, why = cand, r, w
                 improved = True
                 break
@@ -477,7 +489,7 @@ def _check(mod, prop_id: str, tier: str, seed: int, t0: float) -> int:
     violations: list[str] = []
     nrep = 0
     seen_keys: set[str] = set()
-    for v in stats.oracle_violations[:50]:
+    for v in stats.oracle_violations:
         case, real, why = v["case"], v["real"], v["why"]
         key = mod.known_key(case, real, why) if hasattr(mod, "known_key") else ""
         if key in seen_keys:
